@@ -39,6 +39,12 @@ func NewNTTFriendlyPrimesGenerator(BitSize, NthRoot uint64) NTTFriendlyPrimesGen
 
 	PrevPrime -= NthRoot
 
+	// 2^BitSize + k*NthRoot + 1 is 1 modulo NthRoot only if NthRoot divides 2^BitSize: below the root order (and for
+	// a zero NthRoot) no candidate is NTT friendly and the generator is born exhausted.
+	if NthRoot == 0 || BitSize > 63 || uint64(1)<<BitSize < NthRoot {
+		CheckNextPrime, CheckPrevPrime = false, false
+	}
+
 	return NTTFriendlyPrimesGenerator{
 		CheckNextPrime: CheckNextPrime,
 		CheckPrevPrime: CheckPrevPrime,
